@@ -76,6 +76,13 @@ func main() {
 
 var stageDir string
 
+func repoDir() string {
+	if d := os.Getenv("VERIF_REPO"); d != "" {
+		return d
+	}
+	return "/repo"
+}
+
 // buildInstrumented instruments a scratch copy of /repo's current working
 // tree, checks that the repository's own tests still pass on it, and builds
 // the worker binary with -overlay (and -race for kind "race").
@@ -86,7 +93,7 @@ func buildInstrumented(kind string) (string, func(), error) {
 	}
 	stageDir = dir
 	cleanup := func() { os.RemoveAll(dir) }
-	opt := instrument.Options{Repo: "/repo", Out: dir, Points: kind == "race"}
+	opt := instrument.Options{Repo: repoDir(), Out: dir, Points: kind == "race"}
 	if kind == "race" {
 		opt.Vsync = "/root/go/pkg/mod/github.com/deckarep/golang-set@v1.7.1/threadsafe.go"
 	}
